@@ -8,6 +8,7 @@ import (
 	"testing"
 
 	zed "github.com/brimdata/super"
+	"github.com/brimdata/super/compiler"
 	"github.com/brimdata/super/lake/data"
 	"github.com/brimdata/super/order"
 	"github.com/brimdata/super/pkg/field"
@@ -573,16 +574,23 @@ func (r *runner) scan(lk *lakeh.Lake) ([]zed.Value, error) {
 	return translate(r.zctx, vals), nil
 }
 
+// scanSequential scans with compiler.Parallelism forced to 1 (a package-level knob; one case runs at a time).
+func (r *runner) scanSequential(lk *lakeh.Lake) ([]zed.Value, error) {
+	old := compiler.Parallelism
+	compiler.Parallelism = 1
+	defer func() { compiler.Parallelism = old }()
+	return r.scan(lk)
+}
+
 // canonTies sorts, inside every maximal run of adjacent values that have an
-// equal pool key AND identical value bytes (they can then differ only in type),
-// the values by their full identity.  Two scans that differ only inside such
-// runs differ only by the known tie-order finding.
+// equal pool key, the values by their full identity.  Two scans that differ
+// only inside such runs differ only in the order of ties.
 func (r *runner) canonTies(vals []zed.Value) []zed.Value {
 	out := append([]zed.Value(nil), vals...)
 	i := 0
 	for i < len(out) {
 		j := i + 1
-		for j < len(out) && r.keyCmp.Compare(out[i], out[j]) == 0 && string(out[i].Bytes()) == string(out[j].Bytes()) && out[i].IsNull() == out[j].IsNull() {
+		for j < len(out) && r.keyCmp.Compare(out[i], out[j]) == 0 {
 			j++
 		}
 		if j-i > 1 {
@@ -594,22 +602,28 @@ func (r *runner) canonTies(vals []zed.Value) []zed.Value {
 	return out
 }
 
-const sigTie = "C14/tie-order/same-key-same-bytes-different-type"
+// Under the default (parallel) plan the scatter legs pick up partitions dynamically and the merge breaks ties on the
+// pool key by leg, so the order of values with EQUAL pool keys changes from scan to scan.  That is an open finding;
+// the sequential plan (parallelism 1) is deterministic since the object listing was fixed and is checked strictly.
+const sigTie = "C14/tie-order/parallel-scan-equal-keys"
 
-func (r *runner) sameScan(i int, what string, a, b []zed.Value) *vt.Failure {
+func (r *runner) sameScan(i int, what string, a, b []zed.Value, parallel bool) *vt.Failure {
 	d := oracle.Same(a, b)
 	if d == "" {
 		return nil
 	}
-	if oracle.Same(r.canonTies(a), r.canonTies(b)) == "" {
-		r.o.Label("twin-tie-reordered")
+	if parallel && oracle.Same(r.canonTies(a), r.canonTies(b)) == "" {
+		r.o.Label("parallel-tie-reordered")
 		if vt.IsKnown(sigTie) {
 			r.o.Known = append(r.o.Known, sigTie)
 			return nil
 		}
-		return fail(sigTie, "step %d: %s differ only in the relative order of values with equal pool key and identical bytes but different types: %s", i, what, d)
+		return fail(sigTie, "step %d: %s (default parallel plan) differ only in the relative order of values with equal pool keys: %s", i, what, d)
 	}
-	return fail("C14/scan-nondeterministic", "step %d: %s differ: %s", i, what, d)
+	if parallel {
+		return fail("C14/scan-nondeterministic", "step %d: %s differ: %s", i, what, d)
+	}
+	return fail("C14/scan-nondeterministic/sequential-plan", "step %d: %s at parallelism 1 differ: %s", i, what, d)
 }
 
 // invariants checked after every step
@@ -635,8 +649,23 @@ func (r *runner) invariants(i int, op Op) *vt.Failure {
 	if err != nil {
 		return fail("C14/scan-failed", "step %d: second scan failed: %v", i, err)
 	}
-	if f := r.sameScan(i, "two consecutive scans", got, again); f != nil {
+	if f := r.sameScan(i, "two consecutive scans", got, again, true); f != nil {
 		return f
+	}
+	// the sequential plan must order ties identically every time, on this handle and on a fresh one
+	seq1, err := r.scanSequential(r.lk)
+	if err != nil {
+		return fail("C14/scan-failed", "step %d: sequential scan failed: %v", i, err)
+	}
+	seq2, err := r.scanSequential(r.lk)
+	if err != nil {
+		return fail("C14/scan-failed", "step %d: sequential scan failed: %v", i, err)
+	}
+	if f := r.sameScan(i, "two consecutive scans", seq1, seq2, false); f != nil {
+		return f
+	}
+	if d := oracle.SameMultiset(got, seq1); d != "" {
+		return fail("C14/parallel-vs-sequential-content", "step %d: parallel and sequential scans differ in content: %s", i, d)
 	}
 	cold, err := lakeh.Open(r.ctx, r.store, r.mode, nil)
 	if err != nil {
@@ -646,7 +675,14 @@ func (r *runner) invariants(i int, op Op) *vt.Failure {
 	if err != nil {
 		return fail("C14/scan-failed", "step %d: scan through a fresh handle failed: %v", i, err)
 	}
-	if f := r.sameScan(i, "a scan and a scan through a fresh handle", got, coldScan); f != nil {
+	if f := r.sameScan(i, "a scan and a scan through a fresh handle", got, coldScan, true); f != nil {
+		return f
+	}
+	coldSeq, err := r.scanSequential(cold)
+	if err != nil {
+		return fail("C14/scan-failed", "step %d: sequential scan through a fresh handle failed: %v", i, err)
+	}
+	if f := r.sameScan(i, "a scan and a scan through a fresh handle", seq1, coldSeq, false); f != nil {
 		return f
 	}
 	// metadata
